@@ -2,6 +2,7 @@ package sx
 
 import (
 	"go/types"
+	"math"
 	"strconv"
 
 	"gosx/smt"
@@ -90,6 +91,48 @@ func registerStd(e *Engine) {
 		w.unsupported("regular expression operation " + fn.String() + " (not modelled)")
 		return nil
 	}
+	// concrete floating point helpers (floats are concrete values in this executor)
+	f1 := func(name string, f func(float64) float64) {
+		e.AddRule(name, func(w *W, fn *ssa.Function, a []Value) Value {
+			x, ok := a[0].(FloatV)
+			if !ok {
+				w.unsupported(name + " on a non-concrete float")
+			}
+			return FloatV{f(x.F)}
+		})
+	}
+	f1("math.Abs", math.Abs)
+	f1("math.Floor", math.Floor)
+	f1("math.Ceil", math.Ceil)
+	f1("math.Trunc", math.Trunc)
+	f1("math.Log10", math.Log10)
+	f1("math.Sqrt", math.Sqrt)
+	e.AddRule("math.Pow", func(w *W, fn *ssa.Function, a []Value) Value {
+		x, ok1 := a[0].(FloatV)
+		y, ok2 := a[1].(FloatV)
+		if !ok1 || !ok2 {
+			w.unsupported("math.Pow on a non-concrete float")
+		}
+		return FloatV{math.Pow(x.F, y.F)}
+	})
+	e.AddRule("math.Float64bits", func(w *W, fn *ssa.Function, a []Value) Value {
+		x, ok := a[0].(FloatV)
+		if !ok {
+			w.unsupported("math.Float64bits on a non-concrete float")
+		}
+		return w.C.BVu(math.Float64bits(x.F), 64)
+	})
+	e.AddRule("math.Float64frombits", func(w *W, fn *ssa.Function, a []Value) Value {
+		t := w.termOf(a[0])
+		if !t.IsConst() {
+			w.unsupported("math.Float64frombits on a symbolic value")
+		}
+		return FloatV{math.Float64frombits(t.Uint64())}
+	})
+	e.AddRule("math.IsNaN", func(w *W, fn *ssa.Function, a []Value) Value { return w.C.Bool(math.IsNaN(a[0].(FloatV).F)) })
+	e.AddRule("math.IsInf", func(w *W, fn *ssa.Function, a []Value) Value {
+		return w.C.Bool(math.IsInf(a[0].(FloatV).F, int(w.termOf(a[1]).Int64())))
+	})
 	e.AddRule("fmt.Sprintf", func(w *W, fn *ssa.Function, a []Value) Value { return w.fmtString(a) })
 	e.AddRule("fmt.Sprint", func(w *W, fn *ssa.Function, a []Value) Value { return w.strConst("<fmt.Sprint>") })
 	e.AddRule("fmt.Sprintln", func(w *W, fn *ssa.Function, a []Value) Value { return w.strConst("<fmt.Sprintln>") })
